@@ -92,7 +92,7 @@ add({"name": "FileView_read_block", "file": "dfs/img_fileio.cc",
      "anchor": r"std::optional<DFS::SectorBuffer> FileView::read_block\(unsigned long sector\)",
      "sig": "static opt_SectorBuffer FileView_read_block(struct FileView *self, unsigned long sector)",
      "pre": FV_PRE, "post": FV_POST,
-     "rules": [(NULLOPT_SB[0], NULLOPT_SB[1], 2),
+     "rules": [(NULLOPT_SB[0], NULLOPT_SB[1], ">=1"),
                (r"safe_unsigned_multiply\(", "safe_unsigned_multiply_ul(", 1),
                (r"static_cast<unsigned long>\(", "(unsigned long)(", 1),
                (r"return media_\.read_block\(([^;]*)\);", r"if (g_exc) { opt_SectorBuffer none_; none_.has = 0; return none_; } return DataAccess_read_block(self->media_, \1);", 1)]})
@@ -765,9 +765,10 @@ add({"name": "dfs_main_tail", "file": "dfs/main.cc",
      "pre": "#define cout_ (&cout_obj)\n", "post": "#undef cout_\n",
      "rules": [(r"storage\.show_drive_configuration\(std::cerr\);", "g_cfg_shown++;  /* --show-config goes to standard error */", 1),
                (r"instance->invoke\(storage, ctx, extra_args\)", "command_invoke(cout_)", 1),
-               (r"std::cout\.flush\(\);", "os_flush(cout_);", 1),
-               (r"if \(!std::cout\)", "if (cout_->bad)", 1),
-               (r'std::cerr << "error: failed to write to standard output\\n";', "g_diag++;", 1)],
+               (r"std::cout\.flush\(\);", "os_flush(cout_);", ">=0"),
+               (r"\bfflush\(stdout\)", "c_fflush_stdout()", ">=0"),
+               (r"!std::cout\b(?!\.)", "cout_->bad", ">=0"), (r"!std::cout\.good\(\)", "cout_->bad", ">=0"),
+               (r'std::cerr << "error: [^"]*\\n";', "g_diag++;", ">=0")],
      "dropped": ["diagnostic text"]})
 
 add({"name": "dfs_main_help", "file": "dfs/main.cc",
@@ -1018,6 +1019,36 @@ add({"name": "FileSystem_disc_sector_count", "file": "dfs/dfs_filesystem.cc", "a
                (r"vol\.second->root\(\)\.total_sectors\(\)", "self->first_volume_root_total_sectors", ">=0"),
                (r"vol\.second->file_storage_space\(\)", "self->first_volume_file_storage_space", ">=0"),
                (r'throw BadFileSystem\("[^"]*"\);', "{ VERIF_THROW(BadFileSystem, 0); return 0; }", 1)]})
+
+# ---- dfs_volume.h / dfs_volume.cc (C17: the window a volume may read): member initialisers of Volume::Access and Volume ----
+add({"name": "VolumeAccess_ctor", "file": "dfs/dfs_volume.h",
+     "anchor": r"Access\(unsigned long first_sector, unsigned long sectors,\s*DataAccess& underlying\)\s*:\s*", "region_end": r"\s*\{\s*\}",
+     "sig": "static void VolumeAccess_ctor(struct VolumeAccess *self, unsigned long first_sector, unsigned long sectors, struct DataAccess *underlying)",
+     "rules": [(r"^[^:]*:\s*", "", 1), (r"(\w+_)\(([^()]*)\),?\s*", r"self->\1 = (\2); ", ">=3")]})
+add({"name": "Volume_ctor", "file": "dfs/dfs_volume.cc",
+     "anchor": r": catalog_location_\(catalog_location\),", "region_end": r"root_\(std::make_unique<Catalog>",
+     "sig": "static void Volume_ctor(struct VolumeM *self, sector_count_type catalog_location, unsigned long first_sector, unsigned long total_sectors, struct DataAccess *media_)",
+     "rules": [(r"^:\s*", "", 1),
+               (r"volume_tracks_\(([^;]*?),\s*media\),", r"VolumeAccess_ctor(&self->volume_tracks_, \1, media_);", 1),
+               (r"total_sectors_\(DFS::sector_count\(([^()]*)\)\),", r"self->total_sectors_ = sector_count(\1);", 1),
+               (r"catalog_location_\(([^()]*)\),", r"self->catalog_location_ = (\1);", 1)],
+     "dropped": ["root_(std::make_unique<Catalog>(...))"]})
+
+add({"name": "init_volumes_opus_vol", "file": "dfs/dfs_volume.cc",
+     "anchor": r"auto vol = std::make_unique<DFS::Volume>\(fmt,\s*vol_loc", "region_end": r"result\.insert\(std::make_pair\(vol_loc\.volume\(\)",
+     "sig": "static void init_volumes_opus_vol(struct VolumeM *vol, int fmt, const struct VolumeLocation *vol_loc, struct DataAccess *media_)",
+     "rules": [(r"auto vol = std::make_unique<DFS::Volume>\(fmt,(.*?),\s*media\);", r"Volume_ctor(vol, \1, media_);", 1),
+               (r"vol_loc\.catalog_location\(\)", "(sector_count_type)vol_loc->catalog_location_", "=0or1"),
+               (r"vol_loc\.start_sector\(\)", "VolumeLocation_start_sector(vol_loc)", ">=0"),
+               (r"vol_loc\.len\(\)", "VolumeLocation_len(vol_loc)", ">=0"),
+               (r"vol_loc\.(\w+)\(\)", r"vol_loc->\1_", ">=0")],
+     "dropped": ["std::make_unique (the object is the caller's)", "the Format argument (only forwarded to the Catalog)"]})
+add({"name": "init_volumes_plain_vol", "file": "dfs/dfs_volume.cc",
+     "anchor": r"auto vol = std::make_unique<DFS::Volume>\(fmt,\s*(?!\s|vol_loc)", "region_end": r"result\.insert\(std::make_pair\(std::nullopt",
+     "sig": "static void init_volumes_plain_vol(struct VolumeM *vol, int fmt, const struct Geometry *geom_, struct DataAccess *media_)",
+     "rules": [(r"auto vol = std::make_unique<DFS::Volume>\(fmt,(.*?),\s*media\);", r"Volume_ctor(vol, \1, media_);", 1),
+               (r"\bgeom\.total_sectors\(\)", "Geometry_total_sectors(geom_)", ">=0")],
+     "dropped": ["std::make_unique (the object is the caller's)", "the Format argument (only forwarded to the Catalog)"]})
 
 # ---- cmd_cat.cc (C02: "current directory first, then by directory and name, case-insensitively") ---------------------
 add({"name": "cat_mapdir", "file": "dfs/cmd_cat.cc", "anchor": r"\[&ctx\] \(char dir\) -> char",
